@@ -351,7 +351,12 @@ Proof.
   apply (dot_CS A F L).
 Qed.
 
+Lemma lin_kernel_psd_dim : KPos (lin_k A F) (dimdom dim) /\ KCS (lin_k A F) (dimdom dim).
+Proof. split; [apply lin_KPos | apply lin_KCS]. Qed.
+
 End Lin.
+
+Definition lin_kernel_psd := lin_kernel_psd_dim.
 
 (* ======================================================================================== *)
 (* E. end to end: the k nearest neighbours w.r.t. the tree's metric                          *)
